@@ -50,9 +50,19 @@ type BlockS struct {
 	Elem      *TypeS   `json:"elem,omitempty"` // attrs mode element type
 }
 
+// Schema: Partial (top level only) = the body is decoded in two stages, as applications
+// with extensible configuration do. Stage one uses the schema in partial mode
+// (hcldec.PartialDecode; gohcl `remain` field); stage two decodes the remaining body
+// strictly against the optional, dynamically typed attributes named in Extras.
+// RemainKind: body = the gohcl remain field is an hcl.Body which the harness decodes with a
+// second gohcl.DecodeBody; struct = the remain field is itself a struct with the Extras as
+// optional fields, so gohcl does stage two on its own.
 type Schema struct {
-	Attrs  []AttrS  `json:"attrs,omitempty"`
-	Blocks []BlockS `json:"blocks,omitempty"`
+	Attrs      []AttrS  `json:"attrs,omitempty"`
+	Blocks     []BlockS `json:"blocks,omitempty"`
+	Partial    bool     `json:"partial,omitempty"`
+	Extras     []string `json:"extras,omitempty"`
+	RemainKind string   `json:"remain_kind,omitempty"`
 }
 
 func (b *BlockS) nLabels() int { return len(b.MapLabels) + len(b.Labels) }
@@ -341,4 +351,24 @@ func tmplEscape(s string) string {
 	s = strings.ReplaceAll(s, "${", "$${")
 	s = strings.ReplaceAll(s, "%{", "%%{")
 	return s
+}
+
+// splitForInterp cuts s into s1+s2+s3 so that it can be spelled as the template
+// s1 ${"s2"} s3 (an interpolation of a string literal): s2 has no line break and s1 does
+// not end in a character that would turn the interpolation into an escape.
+func splitForInterp(s string, pick func(n int) int) (s1, s2, s3 string, ok bool) {
+	rs := []rune(s)
+	if len(rs) < 1 {
+		return "", "", "", false
+	}
+	i := pick(len(rs))
+	j := i + 1 + pick(len(rs)-i)
+	if j > len(rs) {
+		j = len(rs)
+	}
+	s1, s2, s3 = string(rs[:i]), string(rs[i:j]), string(rs[j:])
+	if strings.HasSuffix(s1, "$") || strings.HasSuffix(s1, "%") || strings.ContainsAny(s2, "\n\r") {
+		return "", "", "", false
+	}
+	return s1, s2, s3, true
 }
